@@ -15,8 +15,15 @@ import (
 
 // UploadStream builds the byte stream a client sends after the HTXF preamble for a file
 // upload: flattened file header with INFO fork, DATA fork, and (forks == 3) a MACR fork.
+// The dates every uploaded information fork carries: created in 1996, modified in 2024 (two different values).
+var (
+	UploadCreateDate = [8]byte{0x07, 0xcc, 0, 0, 0x00, 0x10, 0x00, 0x02}
+	UploadModifyDate = [8]byte{0x07, 0xe8, 0, 0, 0x01, 0x00, 0x03, 0x04}
+)
+
 func UploadStream(name []byte, comment []byte, data, rsrc []byte, forks int) []byte {
-	info := hlref.InfoFork{Platform: [4]byte{'A', 'M', 'A', 'C'}, Type: [4]byte{'T', 'E', 'X', 'T'}, Creator: [4]byte{'t', 't', 'x', 't'}, Name: name, Comment: comment}
+	info := hlref.InfoFork{Platform: [4]byte{'A', 'M', 'A', 'C'}, Type: [4]byte{'T', 'E', 'X', 'T'}, Creator: [4]byte{'t', 't', 'x', 't'}, Name: name, Comment: comment,
+		Create: UploadCreateDate, Modify: UploadModifyDate}
 	out := hlref.FlatHeader(forks, info, len(data))
 	out = append(out, data...)
 	if forks == 3 {
